@@ -38,7 +38,8 @@ def run(ctx):
                   timeout=3000, coverage=False)
     # the repaired trie2 design satisfies everything, including "no orphan database entries"
     ctx.tlc_check("trie", "Trie2.tla", "Trie2_thorough.cfg" if thorough else "Trie2_quick.cfg", timeout=3000)
-    # which trie2 is under test?  (FixValueDeletePath: FALSE = the pinned code, TRUE = after the fix)
+    # which trie2 is under test?  FixValueDeletePath = TRUE (trie.go:511 fixed, commit 85c68cc) is the registered default;
+    # a tree that still has the defect is replayed against the FALSE variant and reports it under its own key
     probe = ctx.run_engine(binary, "TestTrie2OrphanProbe", {})
     has_defect = bool(probe.get("stats", {}).get("orphan"))
     ctx.coverage["trie2_value_delete_defect_present"] = has_defect
@@ -68,7 +69,7 @@ def run(ctx):
     nruns = 10 if thorough else 2
     per_run = 120 if thorough else 60
     for kind, module, cfg in (("legacy", "LegacyMBT.tla", "Legacy_sim.cfg"),
-                              ("trie2", "Trie2MBT.tla", "Trie2_sim.cfg" if has_defect else "Trie2_sim_fixed.cfg")):
+                              ("trie2", "Trie2MBT.tla", "Trie2_sim_unfixed.cfg" if has_defect else "Trie2_sim.cfg")):
         behaviours = []
         for i in range(nruns):
             behaviours += ctx.tlc_simulate("trie", module, cfg, depth=31 * per_run, seed=ctx.seed * 1000 + i, timeout=900)
